@@ -49,6 +49,8 @@ type Val struct {
 	Dig   []string // base-256 digits (little endian) of a non-negative integer value: value == sum Dig[i]*256^i
 	CLen  int64    // statically known slice length (+1), 0 = unknown
 	Math  bool     // mathematical integer (spec)
+	Glob  *ssa.Global // address of a package-level variable
+	Boxed *Val // for interface values built by MakeInterface in this function: the concrete value
 }
 
 type Def struct {
@@ -62,6 +64,7 @@ type Assume struct {
 	Guard string
 	Body  string
 	Why   string
+	Block int // block of the top-level function being translated when the assumption was made (-1: unconditional)
 }
 
 type Obligation struct {
@@ -79,6 +82,7 @@ type Obligation struct {
 	Status string // discharged | failed | undecided
 	Extra  map[string]string
 	Spec   *Clause // contract clause this obligation checks (for replay)
+	Block  int     // block of the top-level function the obligation belongs to (-1 unknown)
 }
 
 type Heap struct {
@@ -121,6 +125,8 @@ type VC struct {
 	topArgs     []Val
 	digCache    map[string][]string
 	epochParent map[int]epochInfo
+	curTopBlock int
+	reachMat    [][]bool // reachMat[a][b]: block b of the top function is reachable from block a
 	frameObj    map[string][]string // object-restricted frame of the function under verification: map -> allowed object terms
 	frameWhole  map[string]bool
 	frameN      int
@@ -184,7 +190,11 @@ func (vc *VC) assume(guard, body, why string) {
 	if body == "true" {
 		return
 	}
-	vc.assumes = append(vc.assumes, Assume{guard, body, why})
+	blk := -1
+	if guard != "true" {
+		blk = vc.curTopBlock
+	}
+	vc.assumes = append(vc.assumes, Assume{guard, body, why, blk})
 }
 
 func (vc *VC) declFun(name, sig string) {
@@ -313,7 +323,7 @@ func (vc *VC) wf(term string, t types.Type, alloc string) string {
 		return sApp("<=", "0", term)
 	case *types.Slice:
 		c := sAnd(sApp("<=", "0", sApp("s-off", term)), sApp("<=", "0", sApp("s-len", term)),
-			sApp("<=", sApp("s-len", term), sApp("s-cap", term)), sApp("<=", "0", sApp("s-arr", term)),
+			sApp("<=", sApp("s-len", term), sApp("s-cap", term)), sApp("<=", sApp("s-cap", term), "4611686018427387904"), sApp("<=", "0", sApp("s-arr", term)),
 			sImp(sApp("=", sApp("s-arr", term), "0"), sApp("=", sApp("s-cap", term), "0")))
 		if alloc != "" {
 			c = sAnd(c, sApp("<", sApp("s-arr", term), alloc))
@@ -668,7 +678,7 @@ func (vc *VC) oblige(kind, name string, tags []string, guard, cond string, fn *s
 		name = fmt.Sprintf("%s~%d", name, c)
 	}
 	o := &Obligation{Name: name, Kind: kind, Tags: tags, Guard: guard, Cond: cond, Cut: len(vc.assumes), VC: vc,
-		Pos: vc.e.posStr(pos), Expr: expr}
+		Pos: vc.e.posStr(pos), Expr: expr, Block: vc.curTopBlock}
 	if fn != nil {
 		o.Fn = fnName(fn)
 	}
@@ -690,7 +700,7 @@ const preludeBase = `(set-logic ALL)
 (declare-const flt_zero Flt)
 `
 
-const preludeStr = `(assert (forall ((s Str)) (! (<= 0 (slen s)) :pattern ((slen s)))))
+const preludeStr = `(assert (forall ((s Str)) (! (and (<= 0 (slen s)) (<= (slen s) 4611686018427387904)) :pattern ((slen s)))))
 (assert (forall ((s Str) (i Int)) (! (and (<= 0 (sat s i)) (<= (sat s i) 255)) :pattern ((sat s i)))))
 (assert (forall ((a Str) (b Str)) (! (= (slen (sconcat a b)) (+ (slen a) (slen b))) :pattern ((sconcat a b)))))
 (assert (forall ((s Str) (i Int) (j Int)) (! (=> (and (<= 0 i) (<= i j) (<= j (slen s))) (= (slen (ssub s i j)) (- j i))) :pattern ((ssub s i j)))))
@@ -750,10 +760,19 @@ func (vc *VC) scriptNeed(o *Obligation, wantModel bool) (string, map[string]bool
 		}
 		termSyms(vc.assumes[i].Body, f)
 	}
+	skip := make([]bool, o.Cut)
+	if vc.reachMat != nil && o.Block >= 0 && o.Block < len(vc.reachMat) {
+		for i := 0; i < o.Cut; i++ {
+			ab := vc.assumes[i].Block
+			if ab >= 0 && ab < len(vc.reachMat) && ab != o.Block && !vc.reachMat[ab][o.Block] {
+				skip[i] = true // made on a path that cannot lead to this obligation
+			}
+		}
+	}
 	for changed := true; changed; {
 		changed = false
 		for i := 0; i < o.Cut; i++ {
-			if used[i] {
+			if used[i] || skip[i] {
 				continue
 			}
 			hit := len(asyms[i]) == 0
